@@ -16,7 +16,29 @@ class Family:
         return self.replay_case(ctx, obj)
 
     def replay_case(self, ctx, obj):
-        print("replay: re-run ./check %s to re-evaluate against the current tree" % ctx.pid)
+        """Re-runs the family with the seed and tier recorded in the replay file (the generators are
+        deterministic in the seed, so the same cases are rebuilt against the CURRENT tree) and says
+        whether the recorded case still fails."""
+        ctx.seed = int(obj.get("seed", ctx.seed))
+        ctx.tier = obj.get("tier", ctx.tier)
+        want = obj.get("case_index")
+        self.run(ctx)
+        again = []
+        for path, found in ctx.violation_records:
+            try:
+                o = json.load(open(path))
+            except Exception:
+                continue
+            if want is None or o.get("case_index") == want or o.get("case") == obj.get("case"):
+                again.append(path)
+        if again:
+            print("REPRODUCED: the recorded case fails again on the current tree: %s" % again[0])
+            print("VIOLATION property=%s replay=%s" % (ctx.pid, again[0]))
+            return 1
+        if ctx.violation_records:
+            print("NOT REPRODUCED (case %s passes now); other cases of this seed fail: %d" % (want, len(ctx.violation_records)))
+            return 1
+        print("NOT REPRODUCED: the recorded case passes on the current tree")
         return 0
 
 
